@@ -92,6 +92,7 @@ typedef struct sim_inst {
 	int in_action, is_eof;
 	int cur_rule, cur_len, more_prefix, prev_more, prev_len;
 	int did_textop, did_less, did_bufop, did_more, n_ops;
+	int rejected;            /* the previous action ended in REJECT */
 	int provided_input;      /* EOF action gave the scanner something to read */
 	long lex_calls;
 	int cur_top;             /* index of the top-level op being executed */
